@@ -3,7 +3,9 @@
 the list of earlier seeds of the property (to be avoided) and the anchored files
 no earlier seed touched (to be preferred). Nothing about the checks is included."""
 import json, re, glob, subprocess, os
-os.makedirs('/tmp/seedprompts5', exist_ok=True)
+import sys
+W = sys.argv[1] if len(sys.argv) > 1 else '5'
+os.makedirs('/tmp/seedprompts' + W, exist_ok=True)
 props = {}
 for l in open('/verif/properties.jsonl'):
     p = json.loads(l)
@@ -34,7 +36,7 @@ def touched(pid):
 
 for pid, p in sorted(props.items()):
     base = subprocess.run(['python3', '/verif/tools/seedprompt.py', pid], capture_output=True, text=True).stdout
-    base = base.replace('/tmp/seed_' + pid, '/tmp/seed5_' + pid).replace('/tmp/seedwork_' + pid, '/tmp/seedwork5_' + pid)
+    base = base.replace('/tmp/seed_' + pid, '/tmp/seed' + W + '_' + pid).replace('/tmp/seedwork_' + pid, '/tmp/seedwork' + W + '_' + pid)
     t = touched(pid)
     un = [a for a in p['anchors']['files'] if not any(f == a or f.startswith(a.rstrip('/') + '/') for f in t)]
     un = [a for a in un if not a.endswith('xtp/share/xtp/xml')]
@@ -42,5 +44,5 @@ for pid, p in sorted(props.items()):
     if un:
         extra += ("\n(1b) Put your change into one of these files, which none of the earlier faults touched (pick the one where a fault against the property statement is most natural; if none of them can carry a fault that survives the test suite, say so and use another anchored file): " + ", ".join(un))
     extra += ("\n(2) Produce patch.diff with `git diff -- csg tools xtp` so that it contains source files only; configure your own _build inside the worktree as described. (3) Your demo MUST pass on the unchanged tree: verify that direction first. (4) Do NOT use `git stash` (shared between all worktrees; other engineers work concurrently): to check the unchanged tree use `git diff > saved.diff; git checkout -- <files>` and re-apply with `git apply`, or a second build directory. (5) Make it HARD to find: prefer faults that need a conjunction of two or three conditions (a rarely used but documented option AND a particular input shape AND a second call/frame/process), numerical faults that stay within rounding for typical inputs but are wrong at a boundary, faults visible only through a secondary output file or a secondary accessor, error paths that should reject but accept (or the reverse), and interplay between two different tools of the project. Do not rely on inputs that are outside what the property statement quantifies over, and make sure the fault really violates a clause of the STATEMENT (quote the clause in meta.json).\n")
-    open('/tmp/seedprompts5/%s.txt' % pid, 'w').write(base + extra)
+    open('/tmp/seedprompts' + W + '/%s.txt' % pid, 'w').write(base + extra)
 print("written")
